@@ -342,9 +342,14 @@ def gen_history(rng, kind, known, smfields, steps):
             # a lower-case SM chart key is outside the claimed alphabet (upper-case keys)
             if o["k"] and o["k"].upper() in smfields and o["k"] not in smfields:
                 o["k"] = o["k"].upper()
+        if kind == "smchart" and o["op"] in ("setkey", "setattr") and o.get("v") and rng.random() < 0.25:
+            # a value with blanks around it is stored as it is (only LOADING trims the six fields)
+            o["v"] = rng.choice([" ", "\n", "\t", ""]) + o["v"] + rng.choice([" ", "\n", "  ", ""])
         res = apply_real(obj, o)
         items = project(obj)
-        out.append({"o": o, "res": res, "items": items, "ser": ser_view(kind, obj),
+        # (an SM chart whose fields carry blanks at their ends is outside the serializer's domain - C01: fields equal their strip())
+        padded = kind == "smchart" and any(isinstance(e["v"], str) and e["v"] != e["v"].strip() for e in items if e["k"] != "NOTES" or True)
+        out.append({"o": o, "res": res, "items": items, "ser": ser_view(kind, obj), "padded": bool(padded),
                     "cmp": cmp_views(kind, obj, items, rng) if rng.random() < 0.2 else []})
     return {"kind": kind, "init": init, "steps": out}
 
